@@ -21,7 +21,7 @@ OVERRIDES = ("none", "equal", "below", "above", "both", "inside-min", "inside-ma
 ORD = 0.25
 
 
-def build(seq, base, slens):
+def build(seq, base, slens, labsuffix=""):
     if isinstance(base, tuple):
         # ("end", E): the tier is laid out from its END backwards, so that boundaries lie a sliver BELOW the whole number E
         lens = []
@@ -42,7 +42,7 @@ def build(seq, base, slens):
             s, e = bounds[i], bounds[i + 1]
             lab = None
             if k in "Ll":
-                lab = ("L%d" if k == "L" else "s%d") % li
+                lab = ("L%d" if k == "L" else "s%d") % li + labsuffix + labsuffix
                 li += 1
                 ents.append((s, e, lab))
             segs.append((k, s, e, lab))
@@ -60,7 +60,7 @@ def build(seq, base, slens):
         t = e
         lab = None
         if k in "Ll":
-            lab = ("L%d" if k == "L" else "s%d") % li
+            lab = ("L%d" if k == "L" else "s%d") % li + labsuffix
             li += 1
             ents.append((s, e, lab))
         segs.append((k, s, e, lab))
@@ -81,8 +81,8 @@ def sliver_class(s, e, T):
 
 
 def check(case):
-    seq, slens, base, thr = case
-    ents, segs, lo, hi = build(seq, base, slens)
+    seq, slens, base, thr = case[:4]
+    ents, segs, lo, hi = build(seq, base, slens, case[4] if len(case) > 4 else "")
     if any(not (s < e) for s, e, _ in ents):
         return 0, "degenerate-float", None, []
     tier = IT("t", list(ents), lo, hi)
@@ -270,6 +270,11 @@ def gen(quick):
                         yield (seqs, slens, base, 0.06)
                         if not quick:
                             yield (seqs, slens, base, None)
+            # labels with many quote characters / hundreds of characters (the label is written with the interval, whatever its length)
+            if n <= 2 and ns <= 1:
+                for suffix in (' "a" "b" "c" "d" "e"', ' ' + '"' * 30, " " + "x" * 9000):
+                    for slens in itertools.product((1e-12, 1.1e-8), repeat=ns):
+                        yield (seqs, slens, 0.3, 1e-8, suffix)
             # laid out backwards from a whole number: boundaries a sliver BELOW 1, 100 and 4096 (numbers that are nearly but not quite integral)
             if ns and n <= (3 if quick else 4):
                 for base in (("end", 1.0), ("end", 100.0), ("end", 4096.0)):
@@ -278,9 +283,23 @@ def gen(quick):
                             yield (seqs, slens, base, thr)
 
 
+def gen_long(quick):
+    """the size axis: tiers of 11 .. 300 segments (two- and three-digit interval indices), slivers at every position class"""
+    cyc = (1e-12, 9.9e-9, 1.1e-8)
+    for unit in ("Ll", "LG", "LgL", "GlL", "LlgL"):
+        for reps in ((6, 40) if quick else (4, 6, 17, 40, 100)):
+            seqs = unit * reps
+            ns = sum(k in "lg" for k in seqs)
+            for rot in range(3):
+                slens = tuple(cyc[(i + rot) % 3] for i in range(ns))
+                for base in (0.0, 0.3):
+                    for thr in (None, 1e-8):
+                        yield (seqs, slens, base, thr)
+
+
 def _snippet(case):
-    seq, slens, base, thr = case
-    ents, segs, lo, hi = build(seq, base, slens)
+    seq, slens, base, thr = case[:4]
+    ents, segs, lo, hi = build(seq, base, slens, case[4] if len(case) > 4 else "")
     return ("from praatio import textgrid\n"
             f"tg = textgrid.Textgrid(); tg.addTier(textgrid.IntervalTier('t', {ents!r}, {lo!r}, {hi!r}))\n"
             f"tg.save('/tmp/x.json', 'textgrid_json', True, None, None, {thr!r}, 'silence')\n"
@@ -292,8 +311,12 @@ def parts(tier):
     return [InputPart(
         "slivers", lambda: gen(quick), check,
         rule="all segment sequences over {ordinary labelled, ordinary gap, labelled sliver, gap sliver} of length <=%d with at least "
-             "one ordinary segment and <=3 slivers x sliver lengths x base times {0,0.3,1} (and, laid out backwards from their end, tiers ending at 1, 100, 4096 so that boundaries lie a sliver below a whole number) x thresholds {None,1e-8,0.06}; each case "
+             "one ordinary segment and <=3 slivers x sliver lengths x base times {0,0.3,1} (and, laid out backwards from their end, tiers ending at 1, 100, 4096 so that boundaries lie a sliver below a whole number) x thresholds {None,1e-8,0.06}, plus labels with 10 / 30 quote characters and of 9000 characters; each case "
              "runs 13 span overrides (none, equal, below/above/both by 1 s, just below/above by a sliver, inside an unlabelled leading/trailing stretch, inside the data) x includeBlankSpaces x formats (all 4 for 'none'/'both', short + textgrid_json otherwise), on a textgrid with two identical interval tiers and a point tier; non-trivial = distinct (sequence, threshold, exact sliver "
              "classification)" % (4 if quick else 5),
         bounds={"max_segments": 4 if quick else 5, "sliver_lengths": list((1e-12, 9.9e-9, 1e-8, 1.1e-8) if quick else D.SLV)},
-        snippet=_snippet, chunk=8)]
+        snippet=_snippet, chunk=8),
+        InputPart("slivers-long-tiers", lambda: gen_long(quick), check,
+                  rule="the size axis: tiers of 12-160 (thorough up to 400) segments built by repeating 5 units (ordinary / sliver patterns) with sliver lengths "
+                       "cycling through {1e-12, 9.9e-9, 1.1e-8} x base times {0, 0.3} x thresholds {None, 1e-8}; the same oracle and the same 13 overrides",
+                  bounds={}, snippet=_snippet, chunk=1)]
